@@ -684,7 +684,36 @@ std::vector<K> gen_keys(TapeReader &t, const GenOpts &o, KeyMeta &meta) {
             size_t k = 1 + t.below(std::min<size_t>(4, meta.seams.size()));
             rec << " SURGERY[";
             for (size_t j = 0; j < k; ++j) {
-                size_t s = meta.seams[t.below(meta.seams.size())];
+                size_t si = t.below(meta.seams.size());
+                size_t s = meta.seams[si];
+                if (t.chance(1, 2)) {
+                    // type B: a run that ends d elements BEFORE the seam (possibly reaching back across the previous seam, so that the
+                    // chunk consists of the continuation of the run and d more elements), d tail keys at chosen distances, and optionally
+                    // the last tail key continuing as a run into the next chunk.  Values are only lowered towards m[from] and capped by
+                    // the first untouched element, so the array stays sorted.
+                    size_t d = t.below(5);
+                    const size_t backs[] = {3, eps + 2, 100, cs, cs + 1 + t.below(cs)};
+                    size_t back = backs[t.below(5)];
+                    size_t cont = t.below(3) == 0 ? 0 : (t.chance(1, 2) ? 1 + t.below(4) : eps + 2 + t.below(eps + 3));
+                    size_t run_end = s - std::min(s, d);                 // first tail position
+                    size_t from = run_end >= back ? run_end - back : 0;
+                    size_t to = std::min(n, s + cont);                     // first untouched position
+                    i128 ceil_v = to < n ? m[to] : lat.hi;
+                    for (size_t i = from; i < run_end; ++i) m[i] = m[from];
+                    i128 curv = m[from];
+                    rec << "B(" << s << ",back=" << back << ",d=" << d;
+                    for (size_t i = run_end; i < s; ++i) {
+                        unsigned c = (unsigned) t.below(4);
+                        i128 step = c == 0 ? 1 : c == 1 ? 2 : c == 2 ? ((i128) 1 << t.below(std::min(40u, lat.width_bits - 1))) : m[i] - curv;
+                        if (step < 0) step = 0;
+                        curv = std::min(curv + step, ceil_v);
+                        m[i] = curv;
+                        rec << (c == 0 ? ",+1" : c == 1 ? ",+2" : c == 2 ? ",+far" : ",orig");
+                    }
+                    for (size_t i = s; i < to; ++i) m[i] = curv;
+                    rec << ",cont=" << cont << ")";
+                    continue;
+                }
                 const size_t opts[] = {0, 1, 2, eps + 2, 2 * eps + 3, 100};
                 size_t a = opts[t.below(6)], b = opts[t.below(6)];
                 size_t from = s >= a ? s - a : 0, to = std::min(n, s + b);
